@@ -1194,7 +1194,13 @@ func (x *xferWorld) progressOverflow(from int, cols int32) string {
 		}
 		// the amount shown as transferred is never more than the file holds (judged where the line says which
 		// file it is about and the sources are plain files, sent in the order given)
-		if m := vProgressAmount.FindStringSubmatch(vis[loc[0]:]); m != nil && key != "" {
+		tampered := false // (what an acknowledgement says after a byte fault or a hostile rewrite is not the sender's doing)
+		for k := range x.rc.res.Faults {
+			if strings.HasPrefix(k, "byte-") || strings.HasPrefix(k, "hostile-") {
+				tampered = true
+			}
+		}
+		if m := vProgressAmount.FindStringSubmatch(vis[loc[0]:]); m != nil && key != "" && !tampered {
 			idx := 0
 			if key != "single" {
 				fmt.Sscanf(key, "(%d/", &idx)
